@@ -212,3 +212,68 @@ func Canonical(in Input) (string, string, string) {
 	}
 	return strings.Join(toks, ";"), lastSnap, ""
 }
+
+// Facts are model-independent facts read off the real server's own hook lines (no replay):
+// which calls registered, which ended, and which calls the SERVER ITSELF decided were replaced.
+type Facts struct {
+	InitAt        map[int]int    // session call -> index of its registration line
+	LRegAt        map[int]int    // listen call -> index of its registration line
+	EndAt         map[int]int    // call -> index of its cleanup line (end / lend)
+	Pair          map[int][2]int // session call -> (src, dst) as registered by the server
+	LPid          map[int]int    // listen call -> peer as registered by the server
+	SessUsurped   map[int]bool   // a write-loop critical section of the call found another (or no) attachment on its side
+	ListenUsurped map[int]bool   // the listen loop found a newer nonce (event lusurped)
+	Events        map[int]int    // call -> number of hook lines
+}
+
+// ReadFacts extracts Facts from raw hook lines.
+func ReadFacts(lines []string, pidIx map[string]int, calls map[string]int) Facts {
+	f := Facts{InitAt: map[int]int{}, LRegAt: map[int]int{}, EndAt: map[int]int{}, Pair: map[int][2]int{}, LPid: map[int]int{},
+		SessUsurped: map[int]bool{}, ListenUsurped: map[int]bool{}, Events: map[int]int{}}
+	kvOf := func(line, k string) string {
+		i := strings.Index(line, " "+k+"=")
+		if i < 0 {
+			if !strings.HasPrefix(line, k+"=") {
+				return ""
+			}
+			i = -1
+		}
+		rest := line[i+len(k)+2:]
+		if j := strings.IndexByte(rest, ' '); j >= 0 {
+			rest = rest[:j]
+		}
+		return rest
+	}
+	for i, line := range lines {
+		if strings.HasPrefix(line, "TX ") {
+			continue
+		}
+		c, ok := calls[kvOf(line, "call")]
+		if !ok {
+			continue
+		}
+		f.Events[c]++
+		switch kvOf(line, "ev") {
+		case "init":
+			f.InitAt[c] = i
+			f.Pair[c] = [2]int{pidIx[kvOf(line, "src")], pidIx[kvOf(line, "dst")]}
+		case "loop":
+			// the call's own attachment vs the attachment registered on its side of the session
+			side := kvOf(line, "sessB")
+			if strings.Compare(kvOf(line, "src"), kvOf(line, "dst")) < 0 {
+				side = kvOf(line, "sessA")
+			}
+			if strings.Split(side, "/")[0] != kvOf(line, "att") {
+				f.SessUsurped[c] = true
+			}
+		case "end", "lend":
+			f.EndAt[c] = i
+		case "lreg":
+			f.LRegAt[c] = i
+			f.LPid[c] = pidIx[kvOf(line, "pid")]
+		case "lusurped":
+			f.ListenUsurped[c] = true
+		}
+	}
+	return f
+}
